@@ -337,6 +337,16 @@ def check_same(run: Run, prog: Program) -> None:
         run.check(ok, "C07.SAME", fn.qual, "gather(*[r.resample(self._window_end) for r in self._resamplers.values()])",
                   "not every registered series is resampled in the tick with the same self._window_end",
                   node=fn.node, file=fn.file, path=p.describe())
+        if gs:
+            kw = {k.arg: k.value for k in gs[0].node.keywords}  # type: ignore[attr-defined]
+            rx = kw.get("return_exceptions")
+            run.check(isinstance(rx, ast.Constant) and rx.value is True, "C07.STEP", fn.qual,
+                      "gather(..., return_exceptions=True)",
+                      "the per-tick gather can raise as soon as one series fails: the tick is left before "
+                      "`_window_end` advances (and while other series are still being resampled), so the "
+                      "next call of resample() emits the same timestamp again",
+                      node=fn.node, file=fn.file, path=p.describe(),
+                      instance=f"{fn.qual}: a failing series cannot make the gather raise before the advance")
     if not n:
         raise AnalysisError(f"{fn.qual}: per-tick gather not found")
     sh = prog.func(f"{MOD}:_StreamingHelper.resample")
@@ -397,6 +407,8 @@ CONTROLS = [
      "C07.ALIGN"),
     ("resampling task always restarted", "microgrid._resampling",
      "                if resampling_task is None or resampling_task.done():\n", "                if True:\n", "C07.ONE"),
+    ("gather raises on the first failing series", MOD, "                return_exceptions=True,\n",
+     "                return_exceptions=False,\n", "C07.STEP"),
     ("alignment sign flipped", MOD, "now + period * 2 - elapsed", "now + period * 2 + elapsed", "C07.ALIGN"),
     ("advance moved after the raise", MOD,
      "            self._window_end += self._config.resampling_period\n", "", "C07.STEP"),
